@@ -43,6 +43,8 @@ fn check_no_zero_sized_cycle_inner(
 	visited_nodes: &mut Vec<bool>,
 	checked_nodes: &mut Vec<bool>,
 ) -> Result<(), UnconditionalCycle> {
+	#[cfg(ten0_serde_avro_fast_verif)]
+	crate::schema::verif_hooks::tick();
 	visited_nodes[node_idx] = true;
 	for field in match &schema.nodes[node_idx].type_ {
 		RegularType::Record(record) => &record.fields,
